@@ -72,7 +72,8 @@ def programs(draw):
         if t == 0 and draw(st.integers(0, 5)) == 0:
             # big jumbo bursts: the 2 MiB event buffer overflows and the library flushes by itself,
             # from inside ovni_ev_jumbo_emit or, with the small events around them, from ovni_ev_emit
-            for _ in range(3):
+            # (one such program in three: a stream beyond 8 MiB)
+            for _ in range(3 if draw(st.integers(0, 2)) else 10):
                 ops.insert(draw(st.integers(1, len(ops))), ["jumbo", draw(st.integers(700000, 1040000))])
         more = draw(st.integers(0, 40))
         for _ in range(more):
@@ -88,7 +89,10 @@ def programs(draw):
             "reinit": reinit,
             # one program in four has metadata larger than a stdio block (many CPUs): stream.json then
             # takes several write() calls
-            "bigmeta": draw(st.integers(0, 3)) == 0}
+            "bigmeta": draw(st.integers(0, 3)) == 0,
+            # OVNI_TMPDIR on another file system than the trace directory (as in the documented use: node-local
+            # storage during the run, the shared file system at the end)
+            "xfs": draw(st.booleans())}
 
 
 def to_script(case):
@@ -161,8 +165,16 @@ def run(case, ctx):
     base = ctx.newdir()
     npoints = 0
     nontrivial = 0
+    xdir = ctx.otherfs_dir() if (case["tmpdir"] and case.get("xfs")) else None
+
+    def tmode():
+        if not case["tmpdir"] or xdir is None:
+            return case["tmpdir"]
+        p = os.path.join(xdir, "tmp")
+        shutil.rmtree(p, ignore_errors=True)
+        return p
     try:
-        dry = inject.run(ctx.shared["drv"], script, os.path.join(base, "dry"), tmpdir_mode=case["tmpdir"], env=env, nthreads=nth)
+        dry = inject.run(ctx.shared["drv"], script, os.path.join(base, "dry"), tmpdir_mode=tmode(), env=env, nthreads=nth)
         if dry.rc != 0:
             if case.get("reinit") and dry.err.strip():
                 return {"discard": True, "cls": ["reinit-refused-by-library"]}
@@ -180,7 +192,7 @@ def run(case, ctx):
             marker_off[t] = offs
         cnt = inject.counts(dry.calls)
         # in which (syscall,k) region does thread_free of some thread lie: from its final stream.json write on
-        points = [(s, k) for s in inject.SYSCALLS for k in range(1, cnt.get(s, 0) + 1)]
+        points = [(s, k) for s in inject.SYSCALLS for k in inject.select_k(cnt.get(s, 0))]
         counters = [0]
 
         def examine(r, label, inserted_at=None):
@@ -235,7 +247,7 @@ def run(case, ctx):
         for (s, k) in points:
             wd = os.path.join(base, "k")
             shutil.rmtree(wd, ignore_errors=True)
-            r = inject.run(ctx.shared["drv"], script, wd, tmpdir_mode=case["tmpdir"], env=env, nthreads=nth,
+            r = inject.run(ctx.shared["drv"], script, wd, tmpdir_mode=tmode(), env=env, nthreads=nth,
                            inject="%s:signal=SIGKILL:when=%d" % (s, k))
             npoints += 1
             if not r.killed:
@@ -256,17 +268,32 @@ def run(case, ctx):
                 scriptL = "\n".join(lines[:at] + ["%s fsize %d" % (lines[at].split()[0], L)] + lines[at:]) + "\n"
                 wd = os.path.join(base, "k")
                 shutil.rmtree(wd, ignore_errors=True)
-                r = inject.run(ctx.shared["drv"], scriptL, wd, tmpdir_mode=True, env=env, nthreads=nth)
+                r = inject.run(ctx.shared["drv"], scriptL, wd, tmpdir_mode=tmode(), env=env, nthreads=nth)
                 npoints += 1
                 examine(r, "no crash, file size limit of %d bytes set right before '%s'" % (L, lines[at]), inserted_at=at)
+        if not case.get("reinit"):
+            # no kill either: the process is finalised while the last thread still has unflushed
+            # events; that thread then flushes and frees.  Whatever the library does about the late
+            # flush (it aborts), a stream that ends up marked finished holds everything a returned
+            # ovni_flush() covered.
+            last_flush = max(i for i, l in enumerate(lines) if l == "T%d flush" % (nth - 1))
+            body = [l for l in lines if l != "P fini"]
+            scriptF = "\n".join(body[:last_flush] + ["P fini"] + body[last_flush:]) + "\n"
+            wd = os.path.join(base, "k")
+            shutil.rmtree(wd, ignore_errors=True)
+            r = inject.run(ctx.shared["drv"], scriptF, wd, tmpdir_mode=tmode(), env=env, nthreads=nth)
+            npoints += 1
+            examine(r, "no crash, ovni_proc_fini called before the last flush of thread %d" % (70 + nth - 1), inserted_at=last_flush)
         nontrivial = counters[0]
         ctx.stats.extra["crash_points"] = ctx.stats.extra.get("crash_points", 0) + npoints
         ctx.stats.extra["crash_points_in_thread_free"] = ctx.stats.extra.get("crash_points_in_thread_free", 0) + nontrivial
         return {"nt": nontrivial > 0, "cls": ["mode:" + ("tmpdir" if case["tmpdir"] else "direct"), "threads:%d" % nth,
-                                               "readdir:%d" % case["readdir"]] + (["short-writes"] if case.get("short") else []),
+                                               "readdir:%d" % case["readdir"]] + (["short-writes"] if case.get("short") else []) + (["tmpdir-on-another-file-system"] if xdir else []),
                 "sample": {"threads": [len(x) for x in case["threads"]], "tmpdir": case["tmpdir"], "crash_points": npoints}}
     finally:
         ctx.rmdir(base)
+        if xdir:
+            ctx.rmdir(xdir)
 
 
 @st.composite
